@@ -55,7 +55,8 @@ REQUIRED_COUNTERS = ['datasets_analysed', 'orderings_compared',
                      'best_fit_parameters_compared',
                      'datasets_with_chunked_records',
                      'directories_with_two_families',
-                     'fitted_points_compared_with_planted_counts']
+                     'fitted_points_compared_with_planted_counts',
+                     'analyses_of_a_rewritten_path']
 SHARD_TIMEOUT = {'quick': 900, 'thorough': 3600}
 
 BOX = {'p_th': (0.03, 0.3), 'nu': (0.7, 1.6), 'A': (0.15, 0.7),
@@ -362,9 +363,73 @@ def judge_family(out, ds, rows, mode, desc, mech, j):
     out.case(desc, True, sample=w if j == 0 else None)
 
 
+def rewrite_scenario(out, rng, base, mech0):
+    """Live monitoring / a reused output path: the files of one data set
+    are analysed, replaced by another data set under the same names within
+    the same second, and analysed again in the same process."""
+    a, b = draw(rng), draw(rng)
+    if abs(a['prm'][0] - b['prm'][0]) < 0.5 * (a['w'] + b['w']):
+        return
+    root = tempfile.mkdtemp(prefix='c16rw-', dir=base)
+    try:
+        live = os.path.join(root, 'live')
+        mt = {}
+        for which, ds in (('first', a), ('second', b)):
+            src = write_dataset(rng, ds, os.path.join(root, which), 'exact')[0]
+            os.makedirs(live, exist_ok=True)
+            for f in os.listdir(live):
+                if f not in os.listdir(src):
+                    os.unlink(os.path.join(live, f))
+            for f in sorted(os.listdir(src)):
+                dst = os.path.join(live, f)
+                shutil.copyfile(os.path.join(src, f), dst)
+                if f in mt:     # same name: keep it inside the same second
+                    os.utime(dst, (mt[f] + 0.4, mt[f] + 0.4))
+                else:
+                    t = float(int(os.stat(dst).st_mtime)) + 0.1
+                    os.utime(dst, (t, t))
+                    mt[f] = t
+            p_th = ds['prm'][0]
+            desc = {'mode': 'exact', 'scenario': f'path rewritten ({which})',
+                    'p_th': round(p_th, 6), 'half_window': round(ds['w'], 6),
+                    'distances': ds['ds']}
+            try:
+                rows, err = analyse(live)
+            except Exception as e:
+                where = panqec_frame(e)
+                if where is None:
+                    raise
+                out.violation(f'{mech0}/rewritten-path/raises-'
+                              f'{type(e).__name__}',
+                              f'{type(e).__name__}: {e} at {where}', desc)
+                return
+            out.count('analyses_of_a_rewritten_path')
+            if err:
+                out.violation(f'{mech0}/rewritten-path/row-count', err, desc)
+                return
+            est = float(rows[0]['p_th_fss'])
+            rel = abs(est - p_th) / ds['w']
+            if not (rel <= TOL_EXACT) or rows[0]['fit_status'] != 'success':
+                out.violation(
+                    f'{mech0}/rewritten-path/threshold-off',
+                    f'{which} data set under the same file names: '
+                    f'p_th_fss={est:.6f} status={rows[0]["fit_status"]!r} '
+                    f'vs planted {p_th:.6f} ({rel:.3f} of the half-window)',
+                    desc)
+                return
+            for k in [k for k in TRUTH if k[0].startswith(root)]:
+                del TRUTH[k]
+    finally:
+        for k in [k for k in TRUTH if k[0].startswith(root)]:
+            del TRUTH[k]
+        shutil.rmtree(root, ignore_errors=True)
+
+
 def run_block(task, out):
     rng = np.random.default_rng([task['seed'], 1616, task['i']])
     base = os.environ.get('PV_WORK') or tempfile.gettempdir()
+    if task['i'] % 2 == 0:
+        rewrite_scenario(out, rng, base, 'thresholds/exact')
     for j in range(task['n']):
         ds = draw(rng)
         mode = 'exact' if (j + task['i']) % 3 != 2 else 'binomial'
